@@ -13,11 +13,11 @@ from __future__ import annotations
 
 import ast
 
-from .. import paths, storewalk, tables
+from .. import lin, paths, storewalk, tables
 from ..model import AnalysisError, Project, self_attr, walk_no_nested
 from ..report import Result, ctx_of
-from ..tables import QP, QG
-from .common import site, src
+from ..tables import QP, QG, RP, RG
+from .common import events_atoms, site, src
 from . import c04
 
 PROP = 'C05'
@@ -64,6 +64,14 @@ def check_enqueue(p, w, r):
             evs = pa.events
             appends = [e for e in evs if e.kind == 'op' and e.list == Q]
             sorts = [e for e in evs if e.kind == 'sort' and e.d.get('list') == Q]
+            if not appends:
+                # served on the spot, without queueing: nobody is overtaken iff nobody waits - the conditions of the path say the queue is empty -
+                # and the request served is the one handed back to the caller
+                L = RP if name == 'reserve_put' else RG
+                grants = [e for e in evs if e.kind == 'op' and e.list == L and e.op in ('append', 'insert')]
+                ret = [e for e in evs if e.kind == 'return']
+                if len(grants) == 1 and ret and ret[-1].value == grants[0].val and lin.unsat(events_atoms(evs) + [('<', lin.norm({Q: -1}))]):
+                    continue
             if len(appends) != 1 or appends[0].op != 'append':
                 bad = (pa, f'expected exactly one `{Q}.append`, found {[(e.op) for e in appends]}')
                 continue
@@ -246,7 +254,7 @@ def check_service(p, w, r):
             r.ok('C05.R3', key, 'grant decided from the store state only; head-first loop checked by C04.R3', src(fi.module), fi.node.lineno)
     # head-first: reuse the C04.R3 walk
     sub = Result('C05')
-    c04.check_service_loop(p, w, sub)
+    c04.check_service_loop(p, w, sub, wakeup=False)      # the order of service, not whether every call serves (that is C04)
     for o in sub.obligations:
         k = o.construct.replace('::service-loop', '::head-first')
         if o.ok:
